@@ -60,6 +60,8 @@ impl PartialEq for Pay {
     }
 }
 
+impl Eq for Pay {}
+
 impl Drop for Pay {
     fn drop(&mut self) {
         assert!(self.tag == TAG_LIVE, "Pay dropped twice (or a never-constructed Pay dropped)");
